@@ -3326,6 +3326,14 @@ impl PeerConnection {
         label: &str,
         config: Option<crate::transports::sctp::DataChannelConfig>,
     ) -> RtcResult<Arc<crate::transports::sctp::DataChannel>> {
+        // A closed connection has run its teardown: nobody would ever end a channel created
+        // now, and a task parked in its `recv()` would wait forever.
+        if *self.inner.peer_state.borrow() == PeerConnectionState::Closed {
+            return Err(RtcError::InvalidState(
+                "PeerConnection is closed".to_string(),
+            ));
+        }
+
         // Ensure we have an application transceiver for negotiation
         let has_app_transceiver = {
             let transceivers = self.inner.transceivers.lock();
